@@ -95,6 +95,10 @@ OUTSIDE_LIST = ["PYDOE_BBDESIGN", "PYDOE_CCDESIGN", "PYDOE_FF2N", "PYDOE_PBDESIG
 N_EXACT = set(SCIPY) - {"PoissonDisk"} | set(OT_NEXACT) | {"PYDOE_LHS", "DiagonalDOE"}
 ALGOS = (["CustomDOE", "DiagonalDOE", "MorrisDOE", "OATDOE"] + OT_NEXACT + list(OT_STRATIFIED) + FULLFACT
          + ["OT_SOBOL_INDICES", "PYDOE_LHS"] + OUTSIDE_LIST + SCIPY)
+for _t, _k in (("quick", 15), ("thorough", 100)):  # mapping forms of CustomDOE with keys not in design-space order
+    MIN_COUNTERS[_t]["custom_designs_with_shuffled_keys:dict2d"] = _k
+    MIN_COUNTERS[_t]["custom_designs_with_shuffled_keys:listdict"] = _k
+    MIN_COUNTERS[_t]["custom_designs_with_shuffled_keys_and_mixed_sizes"] = _k
 for _a in ALGOS:  # every algorithm of the factory must have produced designs
     MIN_COUNTERS["quick"][f"designs:{_a}"] = 120
     MIN_COUNTERS["thorough"][f"designs:{_a}"] = 900
@@ -463,7 +467,14 @@ def gen_settings(rng, algo, space):
         if rows and rng.random() < 0.3 and nrows > 1:
             rows[-1] = list(rows[0])  # a duplicate row
         st["rows"] = rows
-        st["form"] = str(rng.choice(["array", "array", "dict2d", "listdict", "txt", "csv"]))
+        st["form"] = str(rng.choice(["array", "dict2d", "dict2d", "listdict", "listdict", "txt", "csv"]))
+        if st["form"] in ("dict2d", "listdict") and len(space) > 1 and rng.random() < 0.6:
+            # the keys of a mapping carry no order: give them in an order other than the design space's
+            names = [v["name"] for v in space]
+            perm = [str(x) for x in rng.permutation(names)]
+            if perm == names:
+                perm = names[1:] + names[:1]
+            st["key_order"] = perm
     elif algo == "PYDOE_BBDESIGN":
         if rng.random() < 0.6:
             st["center"] = int(rng.integers(1, 5))
@@ -486,6 +497,11 @@ def gen_settings(rng, algo, space):
 
 def gen_case(rng, algo):
     space = gen_space(rng, D_MAX.get(algo))
+    if algo == "CustomDOE" and rng.random() < 0.8:
+        for _ in range(10):  # mostly several variables, so that the variable order of the input forms matters
+            if len(space) > 1:
+                break
+            space = gen_space(rng)
     st = gen_settings(rng, algo, space)
     mode = "execute" if rng.random() < 0.3 else "compute"
     return {"algo": algo, "space": space, "settings": st, "mode": mode, "int_norm": bool(rng.random() < 0.25),
@@ -528,6 +544,7 @@ def materialize(case, scratch):
     if algo == "CustomDOE":
         rows = np.array(st.pop("rows"), dtype=float).reshape(-1, space_dim(case["space"]))
         form = st.pop("form")
+        keys = st.pop("key_order", None) or [v["name"] for v in case["space"]]
         if form == "array":
             st["samples"] = rows
         elif form in ("dict2d", "listdict"):
@@ -536,9 +553,10 @@ def materialize(case, scratch):
                 cols[v["name"]] = rows[:, o:o + v["size"]]
                 o += v["size"]
             if form == "dict2d":
-                st["samples"] = {k: a.copy() for k, a in cols.items()}
-            else:
-                st["samples"] = [{k: a[i].copy() for k, a in cols.items()} for i in range(len(rows))]
+                st["samples"] = {k: cols[k].copy() for k in keys}
+            else:  # every row is its own mapping: rotate the key order from row to row
+                st["samples"] = [{k: cols[k][i].copy() for k in keys[i % len(keys):] + keys[:i % len(keys)]}
+                                 for i in range(len(rows))]
         else:
             path = os.path.join(scratch, f"c14_samples.{form}")
             with open(path, "w") as fh:
@@ -564,6 +582,9 @@ def sfeat(case):
     parts = []
     for k in sorted(st):
         if k in ("seed", "random_state", "rows"):
+            continue
+        if k == "key_order":
+            parts.append("keys=shuffled")
             continue
         if k in CATEGORICAL:
             parts.append(f"{k}={st[k]}")
@@ -674,7 +695,8 @@ def run_case(case, rep, scratch):
         rep.case(case_signature(case, "exception"), nontrivial=False)
         feat = sf
         if algo == "CustomDOE":
-            feat = f"form={st['form']}:{'multi-variable' if len(space) > 1 else 'single-variable'}"
+            feat = (f"form={st['form']}:{'multi-variable' if len(space) > 1 else 'single-variable'}"
+                    + (":keys=shuffled" if st.get("key_order") else ""))
         rep.violation(f"C14:{algo}:exception:{etype}:{feat}", "a design is generated for valid settings", case,
                       observed=f"{etype}: {str(e)[:300]}", expected=mdl)
         return
@@ -690,6 +712,12 @@ def run_case(case, rep, scratch):
     rep.count(f"designs:{algo}")
     if types != "float":
         rep.count("designs_with_integer_variables")
+    if algo == "CustomDOE":
+        rep.count(f"custom_designs:{st['form']}")
+        if st.get("key_order"):
+            rep.count(f"custom_designs_with_shuffled_keys:{st['form']}")
+            if len({v["size"] for v in space}) > 1:
+                rep.count("custom_designs_with_shuffled_keys_and_mixed_sizes")
     if mdl["kind"] == "refuse":
         rep.observe("settings-predicted-refused-were-accepted", {"algo": algo, "settings": st, "why": mdl["why"], "d": d})
 
@@ -748,7 +776,8 @@ def run_case(case, rep, scratch):
         rows = np.array(st["rows"], dtype=float).reshape(-1, d)
         rep.count("custom_rows_compared", n_got)
         if np.any(np.abs(s_a - rows) > 1e-12 * (1 + np.abs(lb) + np.abs(ub))):
-            rep.violation(f"C14:CustomDOE:rows-differ-from-given:{types}:form={st['form']}", "custom rows are returned",
+            rep.violation(f"C14:CustomDOE:rows-differ-from-given:{types}:form={st['form']}"
+                          + (":keys=shuffled" if st.get("key_order") else ""), "custom rows are returned",
                           case, observed=s_a, expected=rows)
 
     # ---- unit samples from a second fresh instance; image under the reference map
@@ -1028,6 +1057,15 @@ def directed_cases():
         rows = [lb.tolist(), ub.tolist(), np.where(is_int, lb, lb + 0.25 * (ub - lb)).tolist(), lb.tolist()]
         for form in ("array", "dict2d", "listdict", "txt", "csv"):
             add("CustomDOE", space, rows=rows, form=form, mode="execute" if form == "array" else "compute")
+        names = [v["name"] for v in space]
+        if len(names) > 1:  # mapping keys in another order than the variables of the design space
+            for form in ("dict2d", "listdict"):
+                add("CustomDOE", space, rows=rows, form=form, key_order=names[::-1])
+                add("CustomDOE", space, rows=rows, form=form, key_order=names[1:] + names[:1], mode="execute")
+    xny = _sp(("x", 2, "float", 0.0, 1.0), ("n", 1, "integer", 10, 20), ("y", 1, "float", -5.0, -1.0))
+    for form in ("dict2d", "listdict"):
+        add("CustomDOE", xny, rows=[[0.25, 0.75, 12, -4.0], [0.5, 1.0, 20, -1.5], [0.0, 0.1, 10, -2.5]], form=form,
+            key_order=["y", "n", "x"])
     # seen by the C03 check: with normalize_design_space=True the physical samples are unnormalised a second time
     # before being evaluated; the generated design itself is right, so this is recorded as an observation here
     out.append({"algo": "OT_FULLFACT", "space": mixed, "settings": {"n_samples": 16}, "mode": "execute",
